@@ -187,6 +187,10 @@ func (r *reader) PrecendingCharacter() rune {
 			break
 		}
 	}
+	if i < 0 {
+		// only continuation bytes precede the position
+		return rune('\n')
+	}
 	rn, _ := utf8.DecodeRune(r.source[i:])
 	return rn
 }
